@@ -148,6 +148,12 @@ class Report:
         return EXIT_OK
 
     def write_evidence(self, n_viol: int):
+        try:
+            from checks.common import LEVELS
+
+            self.level = LEVELS.get(self.prop, self.level)
+        except Exception:
+            pass
         evaluations = sum(d["evaluations"] for d in self.bounded.values())
         distinct = sum(d["distinct_nontrivial"] for d in self.bounded.values())
         samples = list(self.samples)
